@@ -164,6 +164,18 @@ def oracle(op, out):
             if int(k["after"]) != u:
                 return "umask not restored after creating %s (inherited %03o, now %03o)" % (site, u, int(k["after"]))
             return None
+        if w[1] == "seedpre":
+            if k["mode"] == "-":
+                return "writing the seed over an existing %s failed: %s" % (w[3], out)
+            m = int(k["mode"])
+            if k["type"] != "reg":
+                return "after the seed was written its path is a %s, not a fresh regular file (a %s was there before)" % (k["type"], w[3])
+            if k["victim"] != "intact":
+                return "writing the seed followed a symlink planted at the seed path and overwrote its target"
+            if m & ~0o600 or int(k["uid"]) != 0:
+                return "seed file left with mode %04o owner %s (an existing file of mode %04o owner %s was re-used): must be a fresh file no more permissive than 0600" % (
+                    m, k["uid"], int(w[4]), w[5])
+            return None
         if w[1] == "lockpre":
             perm, uid, euid = int(w[3]), int(w[4]), int(w[5])
             if k["fatal"] == "0" and int(k["mode"]) != 0o200:
@@ -364,6 +376,14 @@ def gen_fs(ctx, base):
         for u in umasks:
             ops.append("path mode %s %s %d" % (base, site, u))
             ctx.dist("mode_%s" % site)
+    # the seed written over something planted at its path (another owner's file of any mode, a symlink)
+    for perm in ([0o600, 0o666, 0o644, 0o777, 0o000, 0o4755, 0o400] + [r.randrange(0o10000) for _ in range(40 if thorough else 8)]):
+        for uid in (0, 12345):
+            ops.append("path seedpre %s reg %d %d %d" % (base, perm, uid, r.choice([0, 0o022, 0o077, 0o777])))
+            ctx.dist("seed_preexisting")
+    for u in (0, 0o022, 0o077):
+        ops.append("path seedpre %s link 0 0 %d" % (base, u))
+        ctx.dist("seed_preexisting")
     for perm in ([0o200, 0o600, 0o644, 0o222, 0o000, 0o300, 0o201, 0o1200, 0o4200, 0o2200] + [r.randrange(0o10000) for _ in range(60 if thorough else 20)]):
         for uid, euid in ((0, 0), (1000, 1000), (0, 1000)):
             ops.append("path lockpre %s %d %d %d %d" % (base, perm, uid, euid, r.choice([0, 0o022, 0o077, 0o777])))
@@ -560,7 +580,7 @@ def replay(ctx):
     fixed = []
     for o in ops:
         w = o.split()
-        if len(w) > 2 and w[1] in ("key", "seed", "mode", "lockpre", "fsinit", "gate"):
+        if len(w) > 2 and w[1] in ("key", "seed", "mode", "seedpre", "lockpre", "fsinit", "gate"):
             w[2] = base
         fixed.append(" ".join(w))
     if any(o.split()[1] != "sec" for o in fixed if len(o.split()) > 1):
